@@ -230,4 +230,4 @@ def run(ctx, rep):
             rep.add("R33f", b.sname, "listener_sender and listener_mask are replaced together", bool(mw) and fc.must_accompany(bb, mw),
                     "a path replaces the listener without storing the new mask: the old mask keeps selecting this level for statuses "
                     "it no longer has a listener for, so the change reaches no listener instead of falling back", b.loc(s.line))
-    rep.floor("R33f", n_f, 6, "listener_sender assignments (set_listener functions)")
+    rep.floor("R33f", n_f, 5, "listener_sender assignments (set_listener functions)")
